@@ -20,16 +20,21 @@ PROP = "C07"
 TRACE_MODULES = ["Trace_C07"]
 
 
+COMMENTS = ["!", "!", "! ticket 4711", "!note: checked", "!Command: show running-config", "! ip access-list extended ZZ", "!!"]
+
+
 def render(sections, rng, indent):
     out = []
     for s in sections:
         if rng.random() < 0.3:
-            out.append("!")
+            out.append(rng.choice(COMMENTS))
         out.append(s["hs"])
+        if rng.random() < 0.05:
+            out.append(rng.choice(COMMENTS))
         for b in s["body"]:
             out.append(indent + b)
-            if rng.random() < 0.05:
-                out.append("!")
+            if rng.random() < 0.06:
+                out.append(rng.choice(COMMENTS))
     return "\n".join(out) + ("\n" if rng.random() < 0.5 else "")
 
 
@@ -106,7 +111,7 @@ NOISE = [dict(hs="hostname R1", body=[]), dict(hs="router bgp 65000", body=["nei
 
 
 def random_config(rng, plat):
-    acl_names = rng.sample(["A1", "B2", "ACL-3", "x_4", "100"], rng.randint(1, 3))
+    acl_names = rng.sample(["A1", "B2", "ACL-3", "x_4", "100", "EDGE.V4", "MGMT:SNMP", "DMZ/WEB", "a+b"], rng.randint(1, 3))
     gnames = rng.sample(["G1", "G2", "NET-3"], rng.randint(1, 2))
     secs = [acl_section(rng, plat, n, gnames) for n in acl_names]
     defined = [g for g in gnames if rng.random() < 0.8]
